@@ -12,7 +12,8 @@ import (
 // schedFiles lists the repo files instrumented for the controlled scheduler
 // with their per-file configuration.
 var schedFiles = map[string]instr.SchedConfig{
-	"internal/dag/graph_walker.go":                   {MapRanges: []string{"w.graph.nodes"}},
+	"internal/dag/graph_walker.go": {MapRanges: []string{"w.graph.nodes"},
+		Access: map[string]string{"w.nodeInfoMap[": "Walker.nodeInfoMap", "w.completions[": "Walker.completions"}},
 	"internal/worker/task_worker_pool.go":            {},
 	"internal/maps/mutex_map.go":                     {},
 	"internal/output/handlers/dir_output_handler.go": {ChanRanges: []string{"errChan"}},
@@ -43,7 +44,7 @@ func schedOverlay(c *Ctx, tag string, files []string, harnessPkgs []string) *vc.
 			return nil
 		}
 		unins += st.Uninstrumented
-		notes = append(notes, fmt.Sprintf("%s: go=%d select=%d chanops=%d close=%d maprange=%d chanrange=%d", filepath.Base(f), st.GoStmts, st.Selects, st.ChanOps, st.Closes, st.MapRanges, st.ChanRanges))
+		notes = append(notes, fmt.Sprintf("%s: go=%d select=%d chanops=%d close=%d maprange=%d chanrange=%d access=%d", filepath.Base(f), st.GoStmts, st.Selects, st.ChanOps, st.Closes, st.MapRanges, st.ChanRanges, st.Accesses))
 		notes = append(notes, st.Notes...)
 		if err := ov.AddContent(tag, f, out); err != nil {
 			c.R.BrokenCheck("overlay: %v", err)
